@@ -356,9 +356,17 @@ def prep_roundtrip(ctx: Ctx, case):
             if name in ("SO3", "RxSO3"):
                 c = min(c, 3)
             sc = M64[:, :3, :3].abs().amax(dim=(-1, -2)).clamp_min(1e-300)
-            dm = ((M2[:, :3, :3] - M64[:, :3, :3]).abs().amax(dim=(-1, -2)) / sc).max().item()
-            if not dm <= K_ROT * eps:
-                bad = f"matrix: rotation/scale block of result.matrix() differs from the input by {dm:.3e} > 16 eps (relative)"
+            dmv = (M2[:, :3, :3] - M64[:, :3, :3]).abs().amax(dim=(-1, -2)) / sc
+            # the block is s·R: inside the property's scale range [1e-3, 1e3] it must agree to the 16 eps of the property
+            # (measured worst case 8 eps); for the extreme scales added by the hardening pass (outside the stated quantifier)
+            # the two blocks' own allowances add up (rotation 16 eps + scale 16 eps) — each block is still held to 16 eps above
+            lim = torch.full_like(dmv, K_ROT * eps)
+            if U.SIDX[name] is not None and U.SIDX[src] is not None:
+                sX_ = Xr[:, U.SIDX[src]]
+                lim = torch.where((sX_ >= 1e-3) & (sX_ <= 1e3), lim, 2 * lim)
+            dm = float((dmv / lim).max()) * K_ROT * eps
+            if not bool((dmv <= lim).all()):
+                bad = f"matrix: rotation/scale block of result.matrix() differs from the input by {float(dmv.max()):.3e} > 16 eps (relative; 32 eps for scales outside [1e-3,1e3])"
             elif c == 4 and name in ("SE3", "Sim3") and not torch.equal(M2[:, :3, 3], M64[:, :3, 3]):
                 bad = "matrix: translation column of result.matrix() differs from the input"
     if bad:
@@ -369,11 +377,15 @@ def prep_roundtrip(ctx: Ctx, case):
         try:
             with warnings.catch_warnings():
                 warnings.simplefilter("ignore")
-                singles = torch.stack([call_conv(dict(case, api="direct"), Mi[i].clone()).tensor().double() for i in range(n)])
-            dbq = float((singles[:, U.QSL[name]] - Yt[:, U.QSL[name]]).abs().max())       # unit quaternion: absolute
-            dbs = float(((singles[:, U.SIDX[name]] - Yt[:, U.SIDX[name]]).abs() / Yt[:, U.SIDX[name]].abs()).max()) \
+                cap = 24 if "corpus" in case.get("tags", []) else 8     # every item in the corpus, a spread sample in generated batches
+                h_ = cap // 3
+                idx = list(range(n)) if n <= cap else sorted(set(list(range(h_)) + list(range(n - h_, n)) + list(range(h_, n - h_, max(1, (n - 2 * h_) // h_)))))[:cap + 2]
+                singles = torch.stack([call_conv(dict(case, api="direct"), Mi[i].clone()).tensor().double() for i in idx])
+                Ysub = Yt[idx]
+            dbq = float((singles[:, U.QSL[name]] - Ysub[:, U.QSL[name]]).abs().max())       # unit quaternion: absolute
+            dbs = float(((singles[:, U.SIDX[name]] - Ysub[:, U.SIDX[name]]).abs() / Ysub[:, U.SIDX[name]].abs()).max()) \
                 if U.SIDX[name] is not None else 0.0                                           # scale: relative
-            tsame = U.TSL[name] is None or torch.equal(singles[:, U.TSL[name]], Yt[:, U.TSL[name]])  # translation: a copy
+            tsame = U.TSL[name] is None or torch.equal(singles[:, U.TSL[name]], Ysub[:, U.TSL[name]])  # translation: a copy
             if not (dbq <= 4 * eps and dbs <= 4 * eps and tsame):
                 ctx.fail(case, f"batch: {name} conversion of a batch (lshape {shape}) differs from the per-item calls: q {dbq:.3e}, s {dbs:.3e} (rel), "
                                f"t equal={tsame} [{dtype}, layout {case['lay']}, tags {case['tags'][:3]}]")
@@ -625,7 +637,7 @@ def prep_reject(ctx: Ctx, case):
     # ---- correspondence (verdict and message kind), model evaluated at tol·(1±band) too
     b = band_of(case)
     lines = []
-    for f in (1.0, 1 + b, 1 - b):
+    for f in ((1.0, 1 + b, 1 - b) if pv in ("band", "any") or b > 1e-3 else (1.0,)):
         c2 = dict(case, rtol=case["rtol"] * f, atol=case["atol"] * f)
         lines.append(model_line(c2, M64, n))
 
@@ -811,6 +823,7 @@ def prep_euler(ctx: Ctx, case):
     Qf = Qt.double().reshape(n, 4)
     Back = p.euler2SO3(A).tensor().double().reshape(n, 4)
     pi_d = float(torch.tensor(math.pi, dtype=D))
+    nvar = []
     for i in range(n):
         x, y, z, w = Qf[i].tolist()
         t2 = 2 * (w * y - z * x) / (x * x + y * y + z * z + w * w)
@@ -845,13 +858,17 @@ def prep_euler(ctx: Ctx, case):
             if not db <= tb:
                 ctx.fail(case, f"batch: euler() of a batch (lshape {shape}) differs from the per-item call by {db:.3e} at item {i}: batched {Af[i].tolist()} vs single {one} "
                                f"for q={Qf[i].tolist()} ({dtype}, eps={case['eeps']})")
-        for f in (1.0, 1 + 2.0 ** -20, 1 - 2.0 ** -20):   # regular/singular decision within rounding of the threshold
+        near = abs(abs(t2) - (1 - case["eeps"])) <= 1e-5        # regular/singular decision within rounding of the threshold?
+        nvar.append(3 if near else 1)
+        for f in ((1.0, 1 + 2.0 ** -20, 1 - 2.0 ** -20) if near else (1.0,)):
             lines.append("c11.euler " + common.wire_list([1 - (1 - case["eeps"]) * f] + Qf[i].tolist()))
 
     def finish(reps):
+        off = 0
         for i in range(n):
             ok, details = False, []
-            for rep in reps[3 * i:3 * i + 3]:
+            mine, off = reps[off:off + nvar[i]], off + nvar[i]
+            for rep in mine:
                 v = U.fl(common.reply_nums(rep))
                 want, flag, t2 = v[:3], v[3], v[4]
                 cosp = math.sqrt(max(1 - t2 * t2, 0.0))
@@ -1134,6 +1151,11 @@ def run_corpus(ctx: Ctx):
     jc = reject_corpus()
     ctx.count("corpus.reject.cases", len(jc))
     run_stream(ctx, jc, prep_reject)
+    crt, crj = callform_corpus()
+    ctx.count("corpus.callforms.roundtrip", len(crt))
+    ctx.count("corpus.callforms.reject", len(crj))
+    run_stream(ctx, crt, prep_roundtrip)
+    run_stream(ctx, crj, prep_reject)
 
 
 # ----------------------------------------------------------------------------- call histories, stale reads, views and aliases
@@ -1347,6 +1369,284 @@ def run_history(ctx: Ctx):
         check_view(base | {"view": "permuted-batch"}, p.euler2SO3, g.transpose(0, 1), g, "SO3")
 
 
+
+# ----------------------------------------------------------------------------- pass 2: call forms, modes, duck types, copies, memory
+
+SPECIAL_SHAPES = [(1,), (3,), (4,), (7,), (13,), (3, 3), (4, 4), (3, 4), (4, 3), (1, 1), (3, 1), (1, 4)]
+FORMS = ([("from_matrix", None), ("direct", None), ("from_matrix_pos", None), ("direct_pos", None), ("from_matrix_pos1", None)]
+         + [(a, g) for a in ("partial_fm", "partial_direct")
+            for g in ([], ["check"], ["rtol"], ["atol"], ["check", "rtol"], ["check", "atol"], ["rtol", "atol"])])
+
+
+def effective(form, check, rtol, atol):
+    api, given = form
+    if given is None:
+        return api, ["check", "rtol", "atol"], check, rtol, atol
+    v = {"check": check, "rtol": rtol, "atol": atol}
+    for k_ in DEFAULTS:
+        if k_ not in given:
+            v[k_] = DEFAULTS[k_]
+    return api, given, v["check"], v["rtol"], v["atol"]
+
+
+def callform_corpus():
+    """every public entry point x every way of passing (check, rtol, atol) — all keywords, all positional, mixed, each
+    SUBSET of the keywords — x rtol != atol pairs whose two values straddle the deviation of the bad item (so a swapped or
+    dropped argument flips the verdict) x check on/off, on a mixed batch of three; plus the same forms on valid batches
+    with special sizes"""
+    import random as _r
+    rng = _r.Random(1311)
+    out_rej, out_rt = [], []
+    pairs = [(1e-2, 1e-5), (1e-6, 1e-3)]
+    good = [([0.3, -1.2, 2.5], _norm([0.1, -0.4, 0.7, 0.58]), 2.0), ([1.0, 0.0, -1.0], [0.5, 0.5, -0.5, 0.5], 0.5),
+            ([0.0, 3.0, 0.0], [0.0, math.sqrt(0.5), 0.0, -math.sqrt(0.5)], 30.0)]
+    ci = 0
+    for name in U.GROUPS:
+        src = "Sim3" if name in ("Sim3", "RxSO3") else "SE3"
+        for form in FORMS:
+            for (rt, at) in pairs:
+                for check in ((True, False) if ci % 3 == 0 else (True,)):
+                    api, given, c_, r_, a_ = effective(form, check, rt, at)
+                    lo, hi = sorted([max(a_, 1e-9), max(r_, 1e-9)])
+                    mag = math.sqrt(lo * hi) if hi > lo * 10 else 3.0 * a_       # between the two tolerances
+                    dtype = "float64" if ci % 4 else "float32"
+                    if dtype == "float32" and min(a_, r_ + a_) < 1e-5:
+                        dtype = "float64"
+                    mats = []
+                    pos = ci % 3
+                    for i, (t, q, sc) in enumerate(good):
+                        X = P().LieTensor(torch.tensor(rows_of(src, list(t), list(q), sc if src == "Sim3" else 1.0), dtype=torch.float64), ltype=U.ltype(src))
+                        M = X.matrix().clone()
+                        if i == pos:
+                            M[:3, :3] = perturb(rng, M[:3, :3], "shear", mag)
+                        mats.append(slice_layout(M, LAYOUTS[ci % 3]).to(U.dt(dtype)).double().tolist())
+                    out_rej.append({"stream": "reject", "type": name, "dtype": dtype, "lay": LAYOUTS[ci % 3], "check": c_, "rtol": r_, "atol": a_,
+                                    "api": api, "given": given, "kind": "shear", "factor": mag / max(a_, 1e-300), "bad_items": [pos], "mats": mats,
+                                    "ci": ci, "corpus": True})
+                    ci += 1
+            # the same call form on valid input, special batch sizes
+            api, given, c_, r_, a_ = effective(form, True, 1e-2, 1e-5)
+            shape = SPECIAL_SHAPES[ci % len(SPECIAL_SHAPES)]
+            dtype = ["float64", "float32"][ci % 2]
+            n = int(math.prod(shape))
+            qs = corner_quats()
+            rows = [rows_of(src, good[i % 3][0], qs[(7 * i + ci) % len(qs)][0], [1.0, 1e-3, 1e3, 2.0][i % 4]) for i in range(n)]
+            out_rt.append({"stream": "roundtrip", "type": name, "src": src, "dtype": dtype, "lay": LAYOUTS[ci % 3] if src != "SO3" else "33",
+                           "shape": list(shape), "check": c_, "rtol": r_, "atol": a_, "api": api, "given": given,
+                           "rows": U.to_dtype_exact(rows, dtype)[1].tolist(), "tags": ["corpus", "callform"], "ci": ci})
+    # every special size for every type (both dtypes alternate), default call
+    for name in U.GROUPS:
+        src = {"SO3": "SO3", "SE3": "SE3", "RxSO3": "RxSO3", "Sim3": "Sim3"}[name]
+        for k, shape in enumerate(SPECIAL_SHAPES):
+            n = int(math.prod(shape))
+            qs = corner_quats()
+            rows = [rows_of(src, good[i % 3][0], qs[(5 * i + k) % len(qs)][0], [1.0, 0.01, 100.0][i % 3]) for i in range(n)]
+            dtype = ["float64", "float32"][k % 2]
+            out_rt.append({"stream": "roundtrip", "type": name, "src": src, "dtype": dtype, "lay": "33" if src == "SO3" else LAYOUTS[k % 3],
+                           "shape": list(shape), "check": True, "rtol": 1e-5, "atol": 1e-5, "api": "defaults", "given": [],
+                           "rows": U.to_dtype_exact(rows, dtype)[1].tolist(), "tags": ["corpus", "size"], "ci": k})
+    return out_rt, out_rej
+
+
+def run_modes(ctx: Ctx):
+    """deterministic probes of pass 2: grad modes (12), duck-typed inputs (13), copies (14), outputs own their memory (15),
+    atomic error paths (11) — each compared with the plain call on plain tensors"""
+    import copy as _copy
+    import pickle as _pickle
+    import numpy as _np
+    p = P()
+    qs = corner_quats()
+    for name in U.GROUPS:
+        for dtype in ("float64", "float32"):
+            D = U.dt(dtype)
+            eps = common.EPS[dtype]
+            rows = [rows_of(name, [0.5 * i, -1.0, 2.0 + i], qs[(11 * i + 3) % len(qs)][0], [1.0, 0.02, 50.0, 3.0][i % 4]) for i in range(4)]
+            X = p.LieTensor(torch.tensor(rows, dtype=torch.float64).to(D), ltype=U.ltype(name))
+            base = {"stream": "modes", "type": name, "dtype": dtype}
+            f = lambda m, **kw: p.from_matrix(m, U.ltype(name), **kw)
+            try:
+                M = X.matrix().clone()
+                ref = f(M).tensor()
+                Mbad = M.clone()
+                Mbad[1, :3, 0] = -Mbad[1, :3, 0]          # reflection in item 1
+            except Exception as e:
+                ctx.fail(base, f"raises: plain conversion of a valid {name} batch raised {type(e).__name__}: {str(e)[:100]}")
+                continue
+
+            def same(tag, fn, want=ref, exact=True, case_extra=None, km=None):
+                case = base | {"variant": tag} | (case_extra or {})
+                ctx.note_case(("modes", name, dtype, tag), True)
+                ctx.count(f"modes.{tag.split(':')[0]}")
+                try:
+                    with warnings.catch_warnings():
+                        warnings.simplefilter("ignore")
+                        got = fn()
+                except Exception as e:
+                    ctx.fail(case, f"raises: {name} {tag} raised {type(e).__name__}: {str(e)[:110]} ({dtype})", known_matcher=km)
+                    return None
+                g = got.tensor() if hasattr(got, "ltype") else got
+                g = g.detach()
+                okv = g.shape == want.shape and g.dtype == want.dtype and (torch.equal(g, want) if exact else blocks_close(name, g, want, eps))
+                if not okv:
+                    ctx.fail(case, f"modes: {name} {tag} returns different values / shape / dtype than the plain call on plain tensors ({dtype})")
+                return got
+
+            def must_raise(tag, fn):
+                case = base | {"variant": tag}
+                ctx.note_case(("modes-raise", name, dtype, tag), True)
+                try:
+                    with warnings.catch_warnings():
+                        warnings.simplefilter("ignore")
+                        fn()
+                    ctx.fail(case, f"accepts: a reflected matrix did not raise with check=True under {tag} ({name}, {dtype})")
+                except ValueError:
+                    pass
+                except Exception as e:
+                    ctx.fail(case, f"exctype: a reflected matrix raised {type(e).__name__} instead of ValueError under {tag} ({name}, {dtype})")
+
+            # (12) grad modes
+            same("grad:requires_grad-leaf", lambda: f(M.clone().requires_grad_(True)))
+            same("grad:requires_grad-leaf-check-off", lambda: f(M.clone().requires_grad_(True), check=False))
+
+            def _ng():
+                with torch.no_grad():
+                    return f(M.clone())
+            same("grad:no_grad", _ng)
+
+            def _inf():
+                with torch.inference_mode():
+                    return f(M.clone())
+            same("grad:inference_mode", _inf)
+
+            def _graph():
+                Xg = X.clone().requires_grad_(True)
+                return f(Xg.matrix())
+            same("grad:in-graph", _graph)
+
+            def _graph2():
+                Mg = (M.clone().requires_grad_(True) * 1.0)
+                return f(Mg)
+            same("grad:non-leaf", _graph2)
+            must_raise("grad:requires_grad", lambda: f(Mbad.clone().requires_grad_(True)))
+
+            def _ngb():
+                with torch.no_grad():
+                    return f(Mbad.clone())
+            must_raise("grad:no_grad", _ngb)
+            must_raise("plain", lambda: f(Mbad.clone()))
+            try:
+                Eref = X.euler()
+                same("grad:euler-requires_grad", lambda: X.clone().requires_grad_(True).euler(), want=Eref)
+
+                def _eng():
+                    with torch.no_grad():
+                        return X.clone().euler()
+                same("grad:euler-no_grad", _eng, want=Eref)
+
+                def _einf():
+                    with torch.inference_mode():
+                        return p.LieTensor(X.tensor().clone(), ltype=X.ltype).euler()
+                same("grad:euler-inference_mode", _einf, want=Eref)
+                Qref = p.euler2SO3(Eref).tensor()
+                same("grad:euler2SO3-requires_grad", lambda: p.euler2SO3(Eref.clone().requires_grad_(True)), want=Qref)
+
+                def _e2ng():
+                    with torch.no_grad():
+                        return p.euler2SO3(Eref.clone())
+                same("grad:euler2SO3-no_grad", _e2ng, want=Qref)
+                # (13) duck-typed inputs
+                same("duck:Parameter", lambda: f(torch.nn.Parameter(M.clone())))
+                same("duck:numpy", lambda: f(M.numpy().copy()))
+                f32 = f(M.float()).tensor() if dtype == "float32" else None
+                if f32 is not None:     # python lists become float32 (torch.tensor default): same as the float32 tensor
+                    same("duck:list", lambda: f(M.tolist()), want=f32)
+                    same("duck:tuple", lambda: f(tuple(M.tolist())), want=f32)
+                same("duck:direct-Parameter", lambda: fn_of(name)(torch.nn.Parameter(M.clone())))
+                same("duck:ltype-attribute", lambda: p.from_matrix(M, X.ltype))
+                same("duck:ltype-from-other-object", lambda: p.from_matrix(M, getattr(p, "identity_" + name)(1, dtype=D).ltype))
+                same("duck:lie-Parameter.matrix", lambda: f(p.Parameter(X.clone()).matrix().detach()))
+                same("duck:lie-Parameter.euler", lambda: p.Parameter(X.clone()).euler(), want=Eref)
+                same("duck:functional-matrix", lambda: f(p.matrix(X)))
+                same("duck:functional-euler", lambda: p.euler(X), want=Eref)
+                same("duck:euler2SO3-numpy", lambda: p.euler2SO3(Eref.numpy().copy()), want=Qref)
+                same("duck:euler2SO3-Parameter", lambda: p.euler2SO3(torch.nn.Parameter(Eref.clone())), want=Qref)
+                if dtype == "float32":
+                    same("duck:euler2SO3-list", lambda: p.euler2SO3(Eref.tolist()), want=Qref)
+                    same("duck:euler2SO3-tuple", lambda: p.euler2SO3(tuple(Eref[0].tolist())), want=Qref[0])
+                # (14) copies of the element: each copy follows the same law, also as the source of the ltype argument
+                for how, mk in (("copy", lambda: _copy.copy(X)), ("deepcopy", lambda: _copy.deepcopy(X)),
+                                ("pickle", lambda: _pickle.loads(_pickle.dumps(X)))):
+                    try:
+                        Y = mk()
+                    except Exception as e:
+                        ctx.fail(base | {"stream": "copies", "how": how}, f"raises: {how} of a {name} element raised {type(e).__name__}: {str(e)[:80]}")
+                        continue
+                    same(f"copies:{how}-euler", lambda: Y.euler(), want=Eref)
+                    same(f"copies:{how}-matrix-roundtrip", lambda: f(Y.matrix()))
+                    same(f"copies:{how}-ltype", lambda: p.from_matrix(M, Y.ltype), case_extra={"stream": "copies", "how": how, "fn": "from_matrix"})
+                    Y.tensor().mul_(1.0)        # the copy is used, the original must be untouched
+                    same(f"copies:{how}-original-after", lambda: f(X.matrix()))
+            except Exception as e:
+                ctx.fail(base, f"crash: pass-2 probe on {name} raised {type(e).__name__}: {str(e)[:120]} ({dtype})")
+
+            # (15) outputs own their memory
+            def owns(tag, out, args):
+                case = base | {"variant": "memory:" + tag}
+                ctx.note_case(("memory", name, dtype, tag), True)
+                t = out.tensor() if hasattr(out, "ltype") else out
+                bad = None
+                if t.numel() > 1 and (torch._debug_has_internal_overlap(t) == 1 or any(st == 0 and sz > 1 for st, sz in zip(t.stride(), t.shape))):
+                    bad = "overlaps internally (stride 0 / expanded)"
+                for a in args:
+                    if t.numel() and a.numel() and t.untyped_storage().data_ptr() == a.untyped_storage().data_ptr():
+                        bad = "shares storage with its argument"
+                if bad:
+                    ctx.fail(case, f"memory: the result of {tag} ({name}, {dtype}) {bad}")
+            try:
+                for tag, mk, args in (("from_matrix", lambda: f(M), [M]), ("from_matrix(expanded)", lambda: f(M[0].expand(3, 4, 4) if M.shape[-1] == 4 else M[0].expand(3, 3, 3)), [M]),
+                                      ("matrix", lambda: X.matrix(), [X.tensor()]), ("euler", lambda: X.euler(), [X.tensor()]),
+                                      ("euler2SO3", lambda: p.euler2SO3(Eref), [Eref]),
+                                      ("euler2SO3(expanded)", lambda: p.euler2SO3(Eref[0].expand(5, 3)), [Eref])):
+                    a0 = [a.clone() for a in args]
+                    out = mk()
+                    owns(tag, out, args)
+                    t = out.tensor() if hasattr(out, "ltype") else out
+                    before = t.clone()
+                    t[0].mul_(0.0).add_(7.0)                       # overwrite item 0 of the result in place
+                    if t.shape[0] > 1 and not torch.equal(t[1:], before[1:]):
+                        ctx.fail(base | {"variant": "memory:" + tag}, f"memory: writing item 0 of the result of {tag} changed other items ({name}, {dtype})")
+                    if any(not torch.equal(a, b) for a, b in zip(args, a0)):
+                        ctx.fail(base | {"variant": "memory:" + tag}, f"memory: writing into the result of {tag} changed the argument ({name}, {dtype})")
+                    again = mk()
+                    ta = again.tensor() if hasattr(again, "ltype") else again
+                    if not torch.equal(ta, before):
+                        ctx.fail(base | {"variant": "memory:" + tag}, f"memory: writing into the result of {tag} changed a later call ({name}, {dtype})")
+            except Exception as e:
+                ctx.fail(base, f"crash: memory probe on {name} raised {type(e).__name__}: {str(e)[:120]} ({dtype})")
+
+            # (11) a failing call leaves nothing behind: valid call, failing calls of every kind, the valid call again
+            try:
+                r1 = f(M.clone(), rtol=1e-3, atol=1e-4).tensor()
+                for bad_call in (lambda: f(Mbad.clone()), lambda: f(torch.zeros(2, 2, dtype=D)), lambda: p.from_matrix(M.clone(), None),
+                                 lambda: f(M.clone() * float("nan")), lambda: f(torch.zeros_like(M)), lambda: p.euler2SO3(torch.zeros(2, 4, dtype=D))):
+                    m_before = M.clone()
+                    try:
+                        with warnings.catch_warnings():
+                            warnings.simplefilter("ignore")
+                            bad_call()
+                    except Exception:
+                        pass
+                    if not torch.equal(M, m_before):
+                        ctx.fail(base | {"variant": "atomic"}, f"mutates: a failing call modified a tensor of the caller ({name}, {dtype})")
+                    r2 = f(M.clone(), rtol=1e-3, atol=1e-4).tensor()
+                    ctx.note_case(("atomic", name, dtype), True)
+                    if not torch.equal(r1, r2):
+                        ctx.fail(base | {"variant": "atomic"}, f"atomic: after a call that raised, the same valid {name} conversion returns a different result ({dtype})")
+                        break
+            except Exception as e:
+                ctx.fail(base | {"variant": "atomic"}, f"raises: a valid {name} conversion around failing calls raised {type(e).__name__}: {str(e)[:100]} ({dtype})")
+
+
 # ----------------------------------------------------------------------------- entry points
 
 def run(ctx: Ctx):
@@ -1357,11 +1657,12 @@ def run(ctx: Ctx):
     _UL.persistent_probe(ctx, _reads)
     run_corpus(ctx)          # deterministic corner corpus first: detection never depends on the seed
     run_history(ctx)
+    run_modes(ctx)
     run_dispatch(ctx)
     run_kernel(ctx, ctx.pick(150, 1500))
-    run_roundtrip(ctx, ctx.pick(800, 9000))
-    run_reject(ctx, ctx.pick(700, 6000))
-    run_euler(ctx, ctx.pick(650, 7000))
+    run_roundtrip(ctx, ctx.pick(450, 9000))
+    run_reject(ctx, ctx.pick(400, 6000))
+    run_euler(ctx, ctx.pick(400, 7000))
     run_warn(ctx, ctx.pick(80, 800))
 
 
